@@ -20,12 +20,25 @@ ExtValid(k, i, s, e) ==
     [] k = "Uniform" -> IF i = 1 THEN Cmp(s, e, Base(k)[2]) <= 0 ELSE Cmp(s, e, Base(k)[1]) >= 0
     [] k \in {"Binomial", "Bernoulli"} -> s >= 0 /\ Cmp(s, e, 4) <= 0
 Cases == {[kind |-> k, i |-> i, s |-> s, e |-> e] : k \in RealKinds, i \in 1..2, s \in {0 - 1, 0, 1}, e \in Exps}
-Init == c \in {x \in Cases : x.i <= Arity(x.kind) /\ ~IntField(x.kind, x.i) /\ (x.s = 0 => x.e = 60)}
+\* NaN and the infinities.  An infinite value is decided by the constraint where the constraint is one-sided on that side
+\* (-inf violates "> 0", +inf violates "<= upper", ...); for NaN, and for infinities the constraint admits, the property's
+\* word is "alike": constructor, setter and bulk update must agree (verdict "alike")
+SpecialValid(k, i, sp) ==
+  IF sp = "nan" THEN "alike"
+  ELSE LET s == IF sp = "pinf" THEN 1 ELSE 0 - 1 IN
+       IF ExtValid(k, i, s, 1000) THEN "alike" ELSE "invalid"
+Specials == {[kind |-> k, i |-> i, s |-> 0, e |-> 0, special |-> sp] : k \in RealKinds, i \in 1..2, sp \in {"nan", "pinf", "ninf"}}
+Init == c \in {x \in Cases : x.i <= Arity(x.kind) /\ ~IntField(x.kind, x.i) /\ (x.s = 0 => x.e = 60)} \cup {x \in Specials : x.i <= Arity(x.kind) /\ ~IntField(x.kind, x.i)}
 Next == UNCHANGED c
 Spec == Init /\ [][Next]_c
 \* the symbolic rule agrees with Valid wherever both apply (s = 0, the only value on the integer grid)
-Inv_Agrees == c.s = 0 => (ExtValid(c.kind, c.i, 0, c.e) <=> Valid(c.kind, [Base(c.kind) EXCEPT ![c.i] = 0]))
+IsSpecial == "special" \in DOMAIN c
+Inv_Agrees == (c.s = 0 /\ ~IsSpecial) => (ExtValid(c.kind, c.i, 0, c.e) <=> Valid(c.kind, [Base(c.kind) EXCEPT ![c.i] = 0]))
 Inv_BaseValid == Valid(c.kind, Base(c.kind))
-Emit == PrintT(<<"CASE", ToJson([fam |-> "extreme", kind |-> c.kind, i |-> c.i, s |-> c.s, e |-> c.e, base |-> Base(c.kind),
-                                 valid |-> ExtValid(c.kind, c.i, c.s, c.e)])>>)
+Emit == IF IsSpecial
+        THEN LET sv == SpecialValid(c.kind, c.i, c.special) IN
+             IF sv = "alike" THEN PrintT(<<"CASE", ToJson([fam |-> "extreme", kind |-> c.kind, i |-> c.i, s |-> 0, e |-> 0, special |-> c.special, base |-> Base(c.kind), valid |-> "alike"])>>)
+             ELSE PrintT(<<"CASE", ToJson([fam |-> "extreme", kind |-> c.kind, i |-> c.i, s |-> 0, e |-> 0, special |-> c.special, base |-> Base(c.kind), valid |-> FALSE])>>)
+        ELSE PrintT(<<"CASE", ToJson([fam |-> "extreme", kind |-> c.kind, i |-> c.i, s |-> c.s, e |-> c.e, base |-> Base(c.kind),
+                                      valid |-> ExtValid(c.kind, c.i, c.s, c.e)])>>)
 =============================================================================
